@@ -134,11 +134,9 @@ def main():
     print(f"{len(cands)} candidate mutations; sampling {N} (seed {SEED})", flush=True)
     # warm up builds on the unmutated copy; every check must be quiet there
     base = {}
-    p0 = run_check("C08")
-    base[p0[0]] = p0
-    with cf.ThreadPoolExecutor(6) as ex:
-        for r in ex.map(run_check, [p for p in PROPS if p != "C08"]):
-            base[r[0]] = r
+    sh("python3 tools/translate_logic.py; python3 tools/extract_consts.py; cd lean/MiniMoka && lake build", cwd=VERIF)
+    for p in PROPS:          # sequentially: concurrent `lake build`s of one package race
+        base[p] = run_check(p)
     noisy = [p for p, r in base.items() if r[1] != 0]
     if noisy:
         print("baseline not quiet in the copy:", noisy)
@@ -161,10 +159,7 @@ def main():
             verdict["status"] = "suite-inconclusive"
         else:
             done += 1
-            first = run_check("C08")
-            rs = [first]
-            with cf.ThreadPoolExecutor(6) as ex:
-                rs += list(ex.map(run_check, [p for p in PROPS if p != "C08"]))
+            rs = [run_check(p) for p in PROPS]
             caught = {p: ("replay" if any("no-failing-input-found" not in l for l in v) else "tie-only")
                       for p, rc2, v in rs if rc2 != 0 or v}
             verdict["status"] = "caught" if caught else "SURVIVED"
